@@ -294,3 +294,38 @@ def flag_tests(model, chain, view, blocks=None):
         os_ = resolve(model, chain, view, view.origins_of_place(cond.pl, at=cond.at))
         out.append((b, os_, cond.neg))
     return out
+
+
+class BoolVarGuard:
+    """A local bool `flag` initialised false, set to true only on the equality edge of a qualifying comparison
+    (`if a == b { flag = true }`), and later tested (`if !flag { return Err }`). Pass edge = the true edge of the
+    test. `class_a`/`class_b` are origin-set predicates of the comparison that may set the flag."""
+
+    def __init__(self, name, class_a, class_b):
+        self.name = name
+        self.class_a = class_a
+        self.class_b = class_b
+
+    def pass_edges(self, model, chain, view):
+        eq = EqGuard(self.name, self.class_a, self.class_b).pass_edges(model, chain, view)
+        edges = []
+        if not eq:
+            return edges
+        for b, cond, _ in switch_conds(view):
+            if cond.kind != "place" or cond.pl["p"]:
+                continue
+            l = cond.pl["l"]
+            if view.local_ty(l) != "bool":
+                continue
+            defs = [d for d in view.defs().get(l, []) if d[0] == "s" and d[3]["rv"]["r"] == "use" and d[3]["rv"]["op"]["k"] == "const"]
+            if len(defs) != len(view.defs().get(l, [])):
+                continue
+            trues = [d for d in defs if str(d[3]["rv"]["op"].get("val")) == "1"]
+            falses = [d for d in defs if str(d[3]["rv"]["op"].get("val")) == "0"]
+            if not trues or not falses:
+                continue
+            # every `flag = true` is dominated by an equality edge of the qualifying comparison
+            if all(view.edge_dominated(d[1], eq) for d in trues):
+                te, fe = cmp_true_false_edges(view, b, cond)
+                edges += fe if cond.neg else te
+        return edges
